@@ -4,8 +4,8 @@
    real C++ on every check (see prop.py). *)
 From Coq Require Import ZArith List Bool Permutation.
 From MomoCommon Require Import GenPrelude.
-From C08 Require Gen_GrowCapacity Gen_ArrayBucket Gen_ArrayBucket_cnt Gen_ArrayBucket_s Gen_HashMultiMap Gen_VersionCheck Gen_VersionCheck_a Gen_WrapEq Gen_WrapErase Gen_AB_ops Gen_AB_copy Gen_PairIterator.
-From C08 Require Import GenWrapPrims ArrayBucketModel GenRefine GenSkeleton GenIterator GenWrapRefine MultiMapModel WrapperModel VersionModel Examples.
+From C08 Require Gen_GrowCapacity Gen_ArrayBucket Gen_ArrayBucket_cnt Gen_ArrayBucket_s Gen_HashMultiMap Gen_VersionCheck Gen_VersionCheck_a Gen_WrapEq Gen_WrapErase Gen_AB_ops Gen_AB_copy Gen_PairIterator Gen_RemoveIf.
+From C08 Require Import GenWrapPrims ArrayBucketModel GenRefine GenSkeleton GenIterator GenWrapRefine GenRemoveIf MultiMapModel WrapperModel VersionModel Examples.
 Import ListNotations.
 Local Open Scope Z_scope.
 
@@ -653,3 +653,34 @@ Theorem C08_gen_pv_move_refines :
       match fst it' with [] => 0 | _ => k_begin W (Z.of_nat (length (fst it'))) + Z.of_nat (snd it') end).
 Proof. exact gen_pv_move_refines. Qed.
 Print Assumptions C08_gen_pv_move_refines.
+
+(* ------------------------------------------------------------------ last round: generated Remove(pairFilter) *)
+(* the REAL loop of Remove(const PairFilter&) (regenerated; Remove(iter) as an effect primitive), for EVERY visit trace t (the
+   predicate results in visiting order): one (count - 1, version + 1) per visited pair satisfying the predicate, and the returned
+   number is exactly that count *)
+Theorem C08_gen_remove_if_counts_once_per_matching_pair :
+  forall (t : list bool) (cnt ver : Z),
+  gen_remove_if t cnt ver =
+  Ok (wrapU 64 (Z.of_nat (count_true t)), cnt - Z.of_nat (count_true t), ver + Z.of_nat (count_true t)).
+Proof. exact gen_remove_if_spec. Qed.
+Print Assumptions C08_gen_remove_if_counts_once_per_matching_pair.
+
+(* ... and over the hand model's visit trace of a live container it is the hand model's step: returned number = count difference,
+   mValueCount and valueVersion as after step (version bumped once per removed pair = ver_delta), keys (also the value-less ones)
+   unchanged.  That the removed pairs are exactly those satisfying the predicate is C08_remove_if_keeps_exactly_the_rest /
+   C08_wrapper_erase_if on the hand model, whose per-key loop produced the trace. *)
+Theorem C08_gen_remove_if_refines :
+  forall (M : Z) (c : vmm) (p : Z -> Z -> bool), vlive c = true -> no_wrap_count_t (rm_trace p (fst (fst c))) ->
+  let t := rm_trace p (fst (fst c)) in
+  let c' := vstep1 M c (ORemoveIf p) in
+  gen_remove_if t (snd (fst c)) (vver c) = Ok (snd (fst c) - snd (fst c'), snd (fst c'), vver c') /\
+  vver c' - vver c = snd (fst c) - snd (fst c') /\
+  keys (fst (fst c')) = keys (fst (fst c)).
+Proof. exact gen_remove_if_refines. Qed.
+Print Assumptions C08_gen_remove_if_refines.
+
+Theorem C08_remove_if_trace_counts_removed_pairs :
+  forall (M : Z) (m : mm) (p : Z -> Z -> bool),
+  Z.of_nat (count_true (rm_trace p (fst m))) = ver_delta M m (ORemoveIf p).
+Proof. exact rm_trace_count. Qed.
+Print Assumptions C08_remove_if_trace_counts_removed_pairs.
